@@ -14,7 +14,15 @@ import (
 // a canonical (sorted) textual form: head, members with permissions / status / permission
 // history, invites, pending join and remove requests, key ids, current key id, which key
 // generations the list's own identity can read (with the key bytes), options, owner.
-func Digest(l list.AclList) string {
+func Digest(l list.AclList) string { return digest(l, true) }
+
+// PublicDigest is Digest without what legitimately differs between observers (which key
+// generations the list's own identity can read): members, permissions, status, permission
+// history, invites, pending requests, key ids, current key id, options and owner must be the
+// same for every observer of the same record sequence.
+func PublicDigest(l list.AclList) string { return digest(l, false) }
+
+func digest(l list.AclList, private bool) string {
 	var b strings.Builder
 	st := l.AclState()
 	fmt.Fprintf(&b, "head=%s n=%d last=%s\n", l.Head().Id, len(l.Records()), st.LastRecordId())
@@ -65,6 +73,9 @@ func Digest(l list.AclList) string {
 		mp := "-"
 		if k.MetadataPrivKey != nil {
 			mp = "have"
+		}
+		if !private {
+			rk, mp = "*", "*"
 		}
 		lines = append(lines, fmt.Sprintf("key %s read=%s metapub=%s metapriv=%s", short(id), rk, mk, mp))
 	}
